@@ -106,7 +106,15 @@ func cmdSelfcheck(argv []string) int {
 			nv++
 		}
 	}
+	// concrete timestamps for the time.Parse intrinsic (eco "time")
+	for _, ts := range []string{"20240229120000", "20230229120000", "19000229000000", "20000229235959", "00000101000000", "00010101000000", "99991231235959", "19700101000000", "19691231235959", "20191109211945", "20200601120000", "21000301000000", "20241301000000", "20240431000000", "2024010100000", "20240101006000", "20240101240000", "2024010100000a", "16000229101010", "04000229101010", "01000229101010"} {
+		jobs = append(jobs, job{"time", ts, "", false})
+	}
 	for i, j := range jobs {
+		if j.eco == "time" {
+			cases = append(cases, ReplayCase{ID: fmt.Sprint(i), Func: "VXSelfTimeReport", Args: []string{strconv.Quote(j.a)}})
+			continue
+		}
 		if j.vers {
 			cases = append(cases, ReplayCase{ID: fmt.Sprint(i), Func: "VXSelfVersReport", Args: []string{strconv.Quote(j.a), strconv.Quote(j.b)}})
 		} else {
@@ -126,6 +134,10 @@ func cmdSelfcheck(argv []string) int {
 			return 2
 		}
 		want, _ := strconv.Atoi(o.Msg)
+		if j.eco == "time" {
+			cfgs = append(cfgs, &Config{ID: fmt.Sprintf("self/time/%q", j.a), Pkg: zzhPkg, Func: "VXSelfTime", Args: []ArgSpec{ArgStr(j.a), ArgInt(int64(want))}})
+			continue
+		}
 		if j.vers {
 			cfgs = append(cfgs, &Config{ID: fmt.Sprintf("self/vers/%q|%q", j.a, j.b), Pkg: zzhPkg, Func: "VXSelfVers", Args: []ArgSpec{ArgStr(j.a), ArgStr(j.b), ArgInt(int64(want))}})
 		} else {
@@ -209,41 +221,58 @@ func selfcheckStd(p *Program) int {
 	for _, t := range []string{"{[0-9+\\-a_]}{[0-9a_]}{d}", "{d}{d}{d}{d}", "{[+\\-]}", ""} {
 		ls = append(ls, lemma{"VXStdAtoi", []ArgSpec{ArgTmpl(t)}})
 	}
-	in := NewInterp(p)
-	sv, err := NewSolver("z3-new", in.tb, 20000)
-	if err != nil {
-		fmt.Fprintln(os.Stderr, "selfcheck std:", err)
-		return 1
+	// the time.Parse intrinsic: every valid 14-digit timestamp of eight centuries (leap and non-leap
+	// century years, year 0); all 100 centuries at once is decided by cvc5 only (z3: unknown at 60 s)
+	for _, cc := range []string{"00", "01", "04", "15", "19", "20", "21", "99"} {
+		ls = append(ls, lemma{"VXStdTime", []ArgSpec{ArgTmpl(cc + strings.Repeat("{d}", 12))}})
 	}
-	in.solver = sv
-	defer sv.Close()
+	ls = append(ls, lemma{"VXStdTime", []ArgSpec{ArgTmpl("20{d}{d}0{D}1{d}1{d}{[0-5]}{d}{[0-5]}{d}")}})
 	bad := 0
-	for _, l := range ls {
-		for _, flip := range []bool{false, true} {
-			cfg := &Config{ID: fmt.Sprintf("self/std/%s/%v/%v", l.fn, l.args, flip), Pkg: zzhPkg, Func: l.fn, Args: append(append([]ArgSpec{}, l.args...), ArgBool(flip))}
-			var r *Result
-			func() {
-				defer func() {
-					if e := recover(); e != nil {
-						r = &Result{Config: cfg, Inconcl: []Inconclusive{{cfg.ID, fmt.Sprintf("engine error: %v", e)}}}
-					}
+	for _, solver := range []string{"z3-new", "z3", "cvc5"} {
+		in := NewInterp(p)
+		sv, err := NewSolver(solver, in.tb, 60000)
+		if err != nil {
+			if solver == "z3-new" {
+				fmt.Fprintln(os.Stderr, "selfcheck std:", err)
+				return 1
+			}
+			fmt.Printf("selfcheck: solver %s not available, lemma cross-check skipped for it\n", solver)
+			continue
+		}
+		in.solver = sv
+		t1 := time.Now()
+		for _, l := range ls {
+			if solver == "z3" && l.fn == "VXStdTime" && !strings.HasPrefix(l.args[0].S, "20") {
+				continue // z3 4.8.12 needs ~15 s per century; one century is enough for the cross-check
+			}
+			for _, flip := range []bool{false, true} {
+				cfg := &Config{ID: fmt.Sprintf("self/std/%s/%s/%v/%v", solver, l.fn, l.args, flip), Pkg: zzhPkg, Func: l.fn, Args: append(append([]ArgSpec{}, l.args...), ArgBool(flip))}
+				var r *Result
+				func() {
+					defer func() {
+						if e := recover(); e != nil {
+							r = &Result{Config: cfg, Inconcl: []Inconclusive{{cfg.ID, fmt.Sprintf("engine error: %v", e)}}}
+						}
+					}()
+					r = in.RunConfig(cfg, 20000, time.Now().Add(180*time.Second))
 				}()
-				r = in.RunConfig(cfg, 20000, time.Now().Add(120*time.Second))
-			}()
-			switch {
-			case len(r.Inconcl) > 0:
-				bad++
-				fmt.Printf("SELFCHECK-STD inconclusive %s: %s\n", cfg.ID, r.Inconcl[0].Reason)
-			case !flip && len(r.Violations) > 0:
-				bad++
-				fmt.Printf("SELFCHECK-STD lemma fails %s: %v\n", cfg.ID, r.Violations[0].Args)
-			case flip && len(r.Violations) == 0:
-				bad++
-				fmt.Printf("SELFCHECK-STD negated twin not reported (vacuous lemma) %s\n", cfg.ID)
+				switch {
+				case len(r.Inconcl) > 0:
+					bad++
+					fmt.Printf("SELFCHECK-STD inconclusive %s: %s\n", cfg.ID, r.Inconcl[0].Reason)
+				case !flip && len(r.Violations) > 0:
+					bad++
+					fmt.Printf("SELFCHECK-STD lemma fails %s: %v\n", cfg.ID, r.Violations[0].Args)
+				case flip && len(r.Violations) == 0:
+					bad++
+					fmt.Printf("SELFCHECK-STD negated twin not reported (vacuous lemma) %s\n", cfg.ID)
+				}
 			}
 		}
+		sv.Close()
+		fmt.Printf("selfcheck: %d lemmas and their negated twins decided by %s in %.1fs\n", len(ls), solver, time.Since(t1).Seconds())
 	}
-	fmt.Printf("selfcheck: %d symbolic library lemmas (EqualFold from source with bitwise terms, strings/strconv intrinsics), each with a negated twin\n", len(ls))
+	fmt.Printf("selfcheck: %d symbolic library lemmas (EqualFold from source with bitwise terms, strings/strconv intrinsics), each with a negated twin, under z3 5.1.0, z3 4.8.12 and cvc5 (same verdicts required)\n", len(ls))
 	return bad
 }
 
